@@ -106,6 +106,15 @@ std::string perform(ArchiveFile& a, VolFile* vol, const Call& c, const std::stri
 		case 5: r = a.Contains(c.name) ? "ok:true" : "ok:false"; break;
 		case 6: { auto s = a.OpenStream(size_t(c.idx)); uint64_t len = s->Length();
 			if (len > (64u << 20)) { r = "ok:huge"; break; }
+			// the member stream itself: an over-long read is refused and changes nothing, then the whole member is still delivered
+			if (len >= 1 && (c.idx & 1) == 0) {
+				std::vector<uint8_t> head(std::min<uint64_t>(len, 3)); s->Read(head.data(), head.size());
+				uint64_t pos = s->Position(); std::vector<uint8_t> over(size_t(len - pos + 1));
+				bool threw = false; try { s->Read(over.data(), over.size()); } catch (const std::exception&) { threw = true; }
+				V_CHECK(threw, "member stream of " << len << " bytes delivered " << over.size() << " bytes from position " << pos);
+				V_CHECK(s->Position() == pos, "refused over-long read moved the member stream from " << pos << " to " << s->Position());
+				s->SeekBeginning();
+			}
 			std::vector<uint8_t> b(len); s->Read(b.data(), b.size()); r = outcome_hash(b); if (streamBytes) *streamBytes = b; break; }
 		default: { std::string p = scratch_path("c05_x_" + tag + ".bin"); a.ExtractFile(size_t(c.idx), p); std::vector<uint8_t> b; read_file(p, b); r = outcome_hash(b); if (extracted) *extracted = b; break; }
 		}
